@@ -154,26 +154,23 @@ def list_printer(run, repo, prel, pref, letters, tl, tp, rule='R12.listrepr'):
     from ..names import inlined
     from .. import mini
     f = repo.func(prel, 'PauliList.__repr__')
-    rets = [st.value for st, _ in walk(f.node) if isinstance(st, ast.Return) and st.value is not None]
-    if len(rets) == 1:
-        v = inlined(f, rets[0])
-        if isinstance(v, ast.Call) and isinstance(v.func, ast.Attribute) and v.func.attr == 'join' and len(v.args) == 1 \
-                and isinstance(v.args[0], (ast.ListComp, ast.GeneratorExp)) and len(v.args[0].generators) == 1:
-            g = v.args[0].generators[0]
-            e = v.args[0].elt
-            tv = g.target.id if isinstance(g.target, ast.Name) else None
-            deleg = tv and norm(g.iter) == 'self' and not g.ifs and (
-                (isinstance(e, ast.Call) and norm(e.func) in ('repr', 'str') and [norm(a) for a in e.args] == [tv])
-                or (isinstance(e, ast.Call) and isinstance(e.func, ast.Attribute) and e.func.attr in ('__repr__', '__str__') and norm(e.func.value) == tv))
-            if deleg:
-                run.ok(rule, f, rets[0], 'one line per element, printed by the element printer')
-                return
     if not all(isinstance(p_, int) for p_ in (0, 1, 2, 3)) or any(tp.get(p_) is None for p_ in range(4)) or any(letters.get(k) is None or tl.get(k) is None for k in ((1, 0), (0, 1))):
         run.undecided(rule, f, '__repr__', 'the list prints by itself and the writer tables are not available')
         return
     rows = tuple((tl[(1, 0)], tl[(0, 1)], tp[p_]) for p_ in range(4))
-    want = '\n'.join((pref[p_] or '') + letters[(1, 0)] + letters[(0, 1)] for p_ in range(4))
+    lines_want = [(pref[p_] or '') + letters[(1, 0)] + letters[(0, 1)] for p_ in range(4)]
+    want = '\n'.join(lines_want)
     heap = {}
+
+    class _Elem:
+        # an element of the list: printing it (repr / str / format) is the element printer's line for that operator
+        def __init__(self, k):
+            self.k = k
+
+        def __repr__(self):
+            return lines_want[self.k]
+        __str__ = __repr__
+    elems = tuple(_Elem(k) for k in range(4))
 
     def attr(n, env, rec):
         t = norm(n)
@@ -191,12 +188,21 @@ def list_printer(run, repo, prel, pref, letters, tl, tp, rule='R12.listrepr'):
             if fn.attr in ('long', 'int', 'tolist', 'cpu', 'numpy', 'detach', 'astype', 'to') :
                 return rec(fn.value)
             base = rec(fn.value)
+            if isinstance(base, _Elem) and fn.attr in ('__repr__', '__str__') and not n.args:
+                return str(base)
             if isinstance(base, str) and fn.attr == 'join' and len(n.args) == 1:
                 return base.join(rec(n.args[0]))
             if isinstance(base, str) and fn.attr == 'format':
                 return base.format(*[rec(a) for a in n.args])
-        if isinstance(fn, ast.Name) and fn.id == 'str' and len(n.args) == 1:
+        if isinstance(fn, ast.Name) and fn.id in ('str', 'repr') and len(n.args) == 1:
             return str(rec(n.args[0]))
+        if isinstance(fn, ast.Name) and fn.id == 'map' and len(n.args) == 2 and norm(n.args[0]) in ('repr', 'str'):
+            return tuple(str(x) for x in rec(n.args[1]))
+        if isinstance(fn, ast.Name) and fn.id in ('len', 'list', 'tuple', 'iter') and len(n.args) == 1:
+            v = rec(n.args[0])
+            return len(v) if fn.id == 'len' else tuple(v)
+        if isinstance(fn, ast.Name) and fn.id == 'range':
+            return tuple(range(*[rec(a) for a in n.args]))
         raise Undecidable('call ' + norm(n.func))
 
     def sub(n, env, rec):
@@ -207,7 +213,7 @@ def list_printer(run, repo, prel, pref, letters, tl, tp, rule='R12.listrepr'):
             raise Undecidable('subscript %s: %s' % (norm(n), e))
     res = []
     try:
-        env0 = {}
+        env0 = {'self': elems}
 
         def on_expr(e, env, value):
             # lines.append(x): the list local grows
@@ -233,7 +239,7 @@ def list_printer(run, repo, prel, pref, letters, tl, tp, rule='R12.listrepr'):
         run.undecided(rule, f, '__repr__', 'the printed text of the model list could not be computed')
         return
     bad = [(p_, a, b) for p_, (a, b) in enumerate(zip(got.split('\n'), want.split('\n'))) if a != b]
-    run.check(got == want, rule, f, '__repr__', 'the list decodes its token array by itself: the operator with phase i^%s is printed as %r, the element printer gives %r '
+    run.check(got == want, rule, f, '__repr__', 'the printed list differs from the element printer: the operator with phase i^%s is printed as %r, the element printer gives %r '
               '(phase tokens are 4=+ 5=- 6=+i 7=-i, not ordered by the phase exponent)' % (bad[0] if bad else ('', got, want)))
 
 
